@@ -30,3 +30,19 @@ Definition cond_same (c : cond) (key : nat) (qc : qcond) (reg : nat) (lens : lis
                     | Some b => Bool.eqb b (qcond_eval (program_records reg h) qc)
                     | None => false
                     end) (histories lens).
+
+(* the conditions of one classically controlled operation are a conjunction, possibly over several keys: the operation runs
+   iff all of them hold.  ks = for each key involved (key id, its register, lengths of its earlier measurements); every
+   combination of histories is tried; a circuit condition that cannot be evaluated (no record) is a disagreement. *)
+Fixpoint multi_histories (ks : list (nat * nat * list nat)) : list (list recd * list recd) :=
+  match ks with
+  | [] => [([], [])]
+  | (key, reg, lens) :: r =>
+      flat_map (fun h => map (fun p => (circuit_records key h ++ fst p, program_records reg h ++ snd p)) (multi_histories r))
+               (histories lens)
+  end.
+Definition conds_same (cs : list cond) (qcs : list qcond) (ks : list (nat * nat * list nat)) : bool :=
+  forallb (fun p => forallb (fun c => match eval_cond c (fst p) with Some _ => true | None => false end) cs &&
+                    Bool.eqb (forallb (fun c => match eval_cond c (fst p) with Some true => true | _ => false end) cs)
+                             (forallb (qcond_eval (snd p)) qcs))
+          (multi_histories ks).
